@@ -223,7 +223,7 @@ def classify(parsed):
 class Harness:
     def __init__(self, name, unwind, feature="on", timeout=900, mem_gb=12, loops=None,
                  desc="", bounds=None, assumptions=None, expect="pass", finding=None,
-                 tier="quick", solver=None, extra_args=None, stub_exact=True):
+                 tier="quick", solver=None, extra_args=None, stub_exact=True, fs=256):
         self.name = name
         self.unwind = unwind
         self.feature = feature
@@ -239,6 +239,7 @@ class Harness:
         self.solver = solver
         self.extra_args = extra_args or []
         self.stub_exact = stub_exact
+        self.fs = fs                  # CBMC --max-field-sensitivity-array-size
 
     @property
     def key(self):
@@ -366,6 +367,8 @@ def run_harness(h, logdir, seed=0):
     cmd = ["cbmc"] + CBMC_FLAGS + ["--sat-solver", h.solver or "cadical", "--unwind", str(h.unwind)]
     if uset:
         cmd += ["--unwindset", ",".join(uset)]
+    if h.fs:
+        cmd += ["--max-field-sensitivity-array-size", str(h.fs)]
     cmd += h.extra_args + [work, "--verbosity", "8"]
     out = os.path.join(logdir, stem + ".cbmc.txt")
     rc, killed, secs, peak = _run_watched(cmd, crate, h.timeout, out, h.mem_gb, truncate=True)
@@ -415,6 +418,8 @@ def kani_playback_test(h, logdir):
     if h.solver:
         cmd += ["--solver", h.solver]
     cmd += ["--cbmc-args", "--unwind", str(h.unwind)]
+    if h.fs:
+        cmd += ["--max-field-sensitivity-array-size", str(h.fs)]
     if uset:
         cmd += ["--unwindset", ",".join(uset)]
     rc, killed, secs, peak = _run_watched(cmd, crate, max(h.timeout * 4, 1200), log, max(h.mem_gb * 4, 24))
